@@ -764,6 +764,10 @@ def run(ctx):
             break
     ctx.require(er is not None and er < 0, "NC_ERANGE not found")
     r10erange.check(ctx, lprog, "R10.erange", er, min_sites=200)
+    from rules import r10echar
+    ctx.rule("R10.echar", "flexible APIs: after a user buffer type is decoded, its element type reaches the conversion layer (or a queued "
+             "request) only behind the text/numeric test (NC_ECHAR); the converters assert that it was made")
+    r10echar.check(ctx, lprog, "R10.echar", 5)
 
 
 def check_loop_shape(ctx, fn, head, name, inline=False):
